@@ -623,6 +623,14 @@ static void c06_case(const TypeCtx& c, uint64_t ci) {
           if (st) v2(fmt("C06:accepts-small-buffer:%s:%s", wname(wk), tkey(c).c_str()), fmt("Write into %zu < GetSize (%zu) remaining bytes reported success (wrote %zu)", room, gs, wr), det);
           else if (st.error() != nop::ErrorStatus::WriteLimitReached) v2(fmt("C06:wrong-error:%s:%s:%s", errname(st.error()), wname(wk), tkey(c).c_str()), fmt("Write into a too small buffer returned '%s', not WriteLimitReached", errname(st.error())), det);
           if (wr > room) v2(fmt("C06:wrote-beyond-capacity:%s:%s", wname(wk), tkey(c).c_str()), fmt("%zu bytes written with %zu remaining", wr, room), det);
+          // the refusal is not sticky: the same writer still has room - wr bytes, and a value whose GetSize fits there must be written (a writer that latches its
+          // first refusal breaks "Write with at least GetSize bytes of remaining capacity never fails" on the second use)
+          if (!st && wr <= room && !(c.t->flags & F_HANDLE) && !inner_limited) {
+            Obj od(c.t); const size_t gsd = c.t->get_size(od.p); const size_t before = s.written();
+            if (gsd <= room - wr) { auto st3 = c.t->write(s, od.p); rep().count("c06_writes_after_a_refused_write");
+              if (!st3) v2(fmt("C06:fails-with-room:after-refusal:%s:%s", wname(wk), tkey(c).c_str()), fmt("after a refused Write (%zu bytes were missing) the same writer has %zu bytes left, yet a value with GetSize %zu failed with '%s'", gs - room, room - wr, gsd, errname(st3.error())), det);
+              else if (s.written() - before != gsd) v2(fmt("C06:wrong-bytes:after-refusal:%s:%s", wname(wk), tkey(c).c_str()), fmt("after a refused Write a value with GetSize %zu was written as %zu bytes", gsd, s.written() - before), det); }
+          }
         }
       }
     }
@@ -829,13 +837,18 @@ static void c11_case(const TypeCtx& c, uint64_t ci) {
     rep().count(std::string("c11_reader_") + rname(rk11));
     Obj fresh(c.t); DecodeOutcome df = decode_with(c, rk11, b, SIZE_MAX, fresh, &rs, 0);
     Val fv; if (df.ok) fv = canoned(c.sch, fresh.val());
-    for (int prior_kind = 0; prior_kind < 5; prior_kind++) {
+    for (int prior_kind = 0; prior_kind < 6; prior_kind++) {
       std::string stage = fmt("prior%d/in%zu", prior_kind, bi);
       if (!args().only_stage.empty() && args().only_stage != stage) continue;
       set_current("%s", case_desc(c.t->name, (int64_t)ci, stage, J().s("incoming", hex(b, 160)).str()).c_str());
       Obj dst(c.t); std::string pdesc;
       Val pv = gen_value(c, ci, 200 + prior_kind);
       switch (prior_kind) {
+        case 5: {   // an object whose logical-buffer size member was assigned a count beyond the capacity (also what a foreign failed read may leave): the decoder must not trust it
+          bool made = false; int cand = count_struct_candidates(c.sch, pv);
+          for (int t = 0; t < cand && t < 6 && !made; t++) { Val mv = pv; Rng r5(hash_combine(ci, (uint64_t)t * 977 + bi)); ValMutator m(r5, t); m.walk(c.sch, mv); if (!m.done || m.desc.find("capacity+") == std::string::npos) continue;
+            lb_oversize_flag() = false; dst.set(mv); if (lb_oversize_flag()) { made = true; pdesc = "assigned a value whose size member exceeds the capacity (" + m.desc + ")"; rep().count("c11_prior_states_with_out_of_range_size_member"); } }
+          if (!made) continue; } break;
         case 0: pdesc = "default-constructed"; break;
         case 1: dst.set(pv); pdesc = "assigned random value"; break;
         case 2: { Obj po(c.t); po.set(pv); Bytes pb; nop::ErrorStatus err; if (encode_log(c, po, nullptr, &pb, &err)) { DecodeOutcome d0 = decode_with(c, rk11, pb, SIZE_MAX, dst, nullptr, 0); (void)d0; } pdesc = "after a successful read of another value"; } break;
